@@ -29,6 +29,7 @@ import (
 	"golang.org/x/text/transform"
 
 	protocol "github.com/hujm2023/go-sms-protocol"
+	"github.com/hujm2023/go-sms-protocol/cmpp"
 	"github.com/hujm2023/go-sms-protocol/datacoding"
 	"github.com/hujm2023/go-sms-protocol/datacoding/gsm7encoding"
 )
@@ -852,4 +853,70 @@ func TestValidator_AGREE(t *testing.T) {
 		check(string(rs))
 	}
 	ok(t, "C08-AGREE", n, "all strings of length <= 2 over the GSM alphabet plus one foreign character; all strings of length 3..6 over the 7 branch-driving characters {@,CR,1,a,[,euro,space}; random strings up to 40 (some 150..170) characters")
+}
+
+// ---------------------------------------------------------------------------------------------------------------------
+// BOUNDED stand-in for the decimal string form of the CMPP message id (C17): MsgID2String / MsgIDString2Uint64 go
+// through fmt.Sprintf / fmt.Sscanf with a multi-field format, which the verifier does not model (their contracts are
+// assumed). The bit-level functions CombineMsgID / SplitMsgID are proved for all 2^64 ids.
+func TestValidator_MSGID(t *testing.T) {
+	n := 0
+	dec := func(v uint64, w int) string {
+		s := strconv.FormatUint(v, 10)
+		for len(s) < w {
+			s = "0" + s
+		}
+		return s
+	}
+	check := func(id uint64) {
+		n++
+		s := cmpp.MsgID2String(id)
+		if id == 0 {
+			if s != "" {
+				t.Logf("VALIDATOR-FAIL C17-MSGID id=0 printed as %q", s)
+				t.FailNow()
+			}
+			return
+		}
+		mo, d, h, mi, se, g, q := id>>60&0xf, id>>55&0x1f, id>>50&0x1f, id>>44&0x3f, id>>38&0x3f, id>>16&0x3fffff, id&0xffff
+		want := dec(mo, 2) + dec(d, 2) + dec(h, 2) + dec(mi, 2) + dec(se, 2) + dec(g, 7) + dec(q, 5)
+		if s != want {
+			t.Logf("VALIDATOR-FAIL C17-MSGID id=%#x printed as %q, the 22-digit form of its fields is %q", id, s, want)
+			t.FailNow()
+		}
+		if back := cmpp.MsgIDString2Uint64(s); back != id {
+			t.Logf("VALIDATOR-FAIL C17-MSGID id=%#x printed as %q, which parses back to %#x", id, s, back)
+			t.FailNow()
+		}
+	}
+	ext := [][]uint64{{0, 1, 15}, {0, 1, 31}, {0, 1, 31}, {0, 1, 63}, {0, 1, 63}, {0, 1, 0x3fffff}, {0, 1, 0xffff}}
+	var rec func(k int, acc uint64)
+	shifts := []uint{60, 55, 50, 44, 38, 16, 0}
+	rec = func(k int, acc uint64) {
+		if k == len(ext) {
+			check(acc)
+			return
+		}
+		for _, v := range ext[k] {
+			rec(k+1, acc|v<<shifts[k])
+		}
+	}
+	rec(0, 0)
+	for b := 0; b < 64; b++ {
+		check(1 << uint(b))
+		check(^uint64(0) >> uint(b))
+	}
+	rnd := rand.New(rand.NewSource(12))
+	rounds := 200000
+	if os.Getenv("VERIF_VALIDATOR_QUICK") != "" {
+		rounds = 40000
+	}
+	for i := 0; i < rounds; i++ {
+		id := rnd.Uint64()
+		if i%4 == 0 {
+			id >>= uint(rnd.Intn(64)) // small ids: high fields zero
+		}
+		check(id)
+	}
+	ok(t, "C17-MSGID", n, "all 3^7 combinations of {0, 1, max} per field, every single-bit id and every low-ones id, random 64-bit ids (a quarter of them shifted right by a random amount)")
 }
